@@ -264,16 +264,19 @@ deriving DecidableEq, Repr
 
 def PSt.init : PSt := ⟨[], none⟩
 
+/-- "do not recalculate header if available from previous call" -/
+def verdict (F : Framing) (h : Option (Nat × Nat)) (b0 b1 b2 b3 : UInt8) : Verdict :=
+  match h with
+  | some (k, l) => .frame k l
+  | none => F.judge b0 b1 b2 b3
+
 /-- the `while remaining >= prefix_length` loop. `fuel` bounds the iterations (each consumes ≥ 4 octets). -/
 def loop (F : Framing) : Nat → Option (Nat × Nat) → Bytes → Option PSt × List Ev
   | 0, h, buf => (some ⟨buf, h⟩, [])
   | fuel + 1, h, buf =>
     match split4 buf with
     | some (b0, b1, b2, b3, rest) =>
-      let v := match h with
-        | some (k, l) => Verdict.frame k l        -- "do not recalculate header if available from previous call"
-        | none => F.judge b0 b1 b2 b3
-      match v with
+      match verdict F h b0 b1 b2 b3 with
       | .reject evs => (none, evs)                -- `protocol_error(..); return` / `lengthLimitExceeded`
       | .frame k l =>
         if l ≤ rest.length then
